@@ -9,6 +9,18 @@ COMMON_NOTE = ("Trusted: Coq 8.16.1 kernel; extraction with ExtrOcamlBasic only 
                "the radix-tree library, flock(2), goroutine scheduling. See DESIGN.md section 5.")
 
 CHECKS = {
+ 'C09': dict(text="Proof (Coq), for EVERY hash function (in particular one under which all keys collide): on every state satisfying KInv - "
+                  "Inv plus: every index file present is exactly the index derived from its log file, key hashes included - GetByKey "
+                  "returns the live message with the greatest offset whose key is byte-for-byte the argument (nil and empty keys are the "
+                  "same byte string), ErrNotFound if none; ConsumeByKey at any offset/maxCount returns a run of the live messages with "
+                  "exactly that key at or after the offset, in offset order, none stepped over, at most max(maxCount,1), next = last+1, "
+                  "NextOffset when nothing is left or for OffsetNewest; ErrNoIndex without the key index. KInv is proved to hold on every "
+                  "state reachable by any history (publishes with rollover, deletes, reads with lazy index rebuilds, close/reopen in any "
+                  "mode, index-file removal, Migrate, Recover) that keeps its index options. Tied to /repo by seeded histories over a small "
+                  "key alphabet that includes three verified FNV-1a-64 collision pairs and nil/empty keys: GetByKey, OffsetByKey and "
+                  "ConsumeByKey (iterated from OffsetOldest and at random offsets/maxCounts) for every key of the alphabet after every step, "
+                  "compared with the extracted model and judged by check_get_by_key / check_consume_by_key on the implementation output.",
+             ref='6/C09', technique='Coq proof (exact-index invariant over histories; key lookups refine the abstract log) + differential correspondence with extracted model'),
  'C07': dict(text="Proof (Coq), for every checksum function with 32-bit values and every byte string: the transcribed readV1/readV2 "
                   "accept only byte-for-byte valid records (decoder soundness for both versions), so the scan shared by Recover and Check "
                   "returns a back-to-back run of valid records and stops at the first position that holds none; Recover (recover_bytes) on "
